@@ -29,6 +29,21 @@ SRC = '''
 import math
 import numpy as np
 
+def t_for_range(n, ms, ws):
+    acc = 0
+    cnt = 0
+    for i in range(n):
+        keep = np.invert(ms[i])
+        acc += keep * ws[i]
+        cnt += keep
+    return acc, cnt
+
+def t_masked_store(x, y, f):
+    m = y > 0
+    x[m] /= y[m]
+    x[~m] = f
+    return x
+
 def t_floordiv(a, b):
     return a // b
 
@@ -181,6 +196,11 @@ SPECS = [
     dict(name="t_elif", params=[("s", S)], returns=I),
     dict(name="t_neg_index", params=[("t", P.tup(I, I, I))], returns=I),
     dict(name="t_substore", params=[("t", P.tup(I, I, I)), ("v", I)], returns=P.tup(I, I, I)),
+    dict(name="t_for_range", params=[("n", I), ("ms", ("list", B)), ("ws", ("list", Q))], returns=P.tup(Q, I), arrays=True,
+         var_types={"acc": Q, "cnt": I},
+         gen_args=lambda rng: (lambda k: [k, [rng.random() < 0.4 for _ in range(k)],
+                                           [Fraction(rng.randrange(-64, 65), rng.choice([1, 2, 4])) for _ in range(k)]])(rng.randrange(0, 6))),
+    dict(name="t_masked_store", params=[("x", Q), ("y", Q), ("f", Q)], returns=Q, arrays=True, pow2=["y"]),
 ]
 
 
@@ -219,6 +239,14 @@ def gen(t, rng, spec, name):
 
 def to_py(v, t, numpy_mode):
     """the argument as the Python function receives it"""
+    if numpy_mode == "arrays":
+        if t == Q:
+            return np.array([float(v)])
+        if t == B:
+            return np.array([bool(v)])
+        if isinstance(t, tuple) and t[0] == "list":
+            return [to_py(x, t[1], numpy_mode) for x in v]
+        return v
     if numpy_mode and t == Q:
         return np.float64(float(v))
     return v
@@ -239,6 +267,8 @@ def lean_lit(v, t):
     if t == N:
         f = float(v)
         return "(none : Option Rat)" if (math.isnan(f) or math.isinf(f)) else f"(some {lean_lit(Fraction(f), Q)})"
+    if isinstance(t, tuple) and t[0] == "list":
+        return "[" + ", ".join(lean_lit(x, t[1]) for x in v) + "]"
     if isinstance(t, tuple) and t[0] == "opt":
         return f"(none : {P.lean_ty(t)})" if v is None else f"(some {lean_lit(v, t[1])})"
     if isinstance(t, tuple) and t[0] == "tuple":
@@ -261,9 +291,9 @@ def main():
         sp = dict(spec, select=P._whole, owners=[])
         tr = P.Tr3(sp, fn)
         defs.append(tr.translate(sp["select"](fn)))
-        numpy_mode = spec.get("numpy", False)
+        numpy_mode = "arrays" if spec.get("arrays") else spec.get("numpy", False)
         for _ in range(n):
-            args = [gen(t, rng, spec, nm) for nm, t in spec["params"]]
+            args = spec["gen_args"](rng) if "gen_args" in spec else [gen(t, rng, spec, nm) for nm, t in spec["params"]]
             try:
                 with np.errstate(all="ignore"):
                     res = env[spec["name"]](*[to_py(a, t, numpy_mode) for a, (_, t) in zip(args, spec["params"])])
@@ -271,6 +301,8 @@ def main():
                 continue
             if isinstance(res, list):
                 res = tuple(res)
+            if spec.get("arrays"):       # elementwise reading: arrays of one element in, element 0 out
+                res = tuple(np.asarray(r).ravel()[0] for r in res) if isinstance(res, tuple) else np.asarray(res).ravel()[0]
             call = f"Gen.{spec['name']} " + ("200 " if spec.get("fuel") else "") + " ".join(lean_lit(a, t) for a, (_, t) in zip(args, spec["params"]))
             checks.append(f"#eval decide (({call}) = {lean_lit(res, spec['returns'])})")
             labels.append((spec["name"], args, res))
